@@ -148,7 +148,25 @@ fn cmd_run(args: &[String], scratch: &str) -> i32 {
                     continue;
                 }
             };
+            // a leading {"__shared__": {...}} element carries keys common to all cases of the run
+            let (shared, cs) = match cs.first() {
+                Some(f) if f.get("__shared__").is_some() => (f["__shared__"].clone(), cs[1..].to_vec()),
+                _ => (Value::Null, cs),
+            };
             for (k, case) in cs.iter().enumerate() {
+                let full;
+                let case = if let Some(m) = shared.as_object() {
+                    let mut c = case.clone();
+                    for (key, v) in m {
+                        if c.get(key).is_none() {
+                            c[key] = v.clone();
+                        }
+                    }
+                    full = c;
+                    &full
+                } else {
+                    case
+                };
                 let o = execute_case(case, &scratch);
                 agg.evaluations += 1;
                 if let Some(e) = &o.harness_error {
